@@ -369,7 +369,7 @@ impl Engine for X {
     fn plan(&self, _prop: &str, tier: &str) -> Vec<(String, u64)> {
         let t = tier == "thorough";
         let p = |s: &str, q: u64, th: u64| (s.to_string(), if t { th } else { q });
-        vec![p("xcfg.encode", 6000, 200_000), p("xcfg.decode", 12000, 500_000), p("xcfg.normalize", 20000, 500_000), p("xcfg.direct_bits", 40000, 1_000_000)]
+        vec![p("xcfg.encode", 6000, 80_000), p("xcfg.decode", 12000, 200_000), p("xcfg.normalize", 20000, 300_000), p("xcfg.direct_bits", 40000, 500_000)]
     }
     fn gen(&self, prop: &str, scen: &str, _k: u64, seed: u64) -> Case {
         gen_case(prop, scen, seed)
